@@ -492,6 +492,13 @@ func (x *Exec) instrs(fr *Frame, st *State, b *ssa.BasicBlock, from int) {
 			if len(st.trace) >= x.pruneDepth() {
 				// deep paths: drop infeasible branches (one short solver call each) to keep path enumeration tractable
 				if x.prove(st, cond.S) {
+					if x.prove(st, sNot(cond.S)) {
+						// both the condition and its negation follow: the path condition is contradictory (a contract is
+						// inconsistent, or the path is dead): flagged, because everything after it would be proved vacuously
+						x.emit(fr, st, "vacuity:contradictory-path@"+x.label(fr.fn, in, "if"), "vacuity", atom("false"), in).Cover = true
+						x.endPath()
+						return
+					}
 					x.block(fr, st, b.Succs[0], b)
 					return
 				}
